@@ -692,11 +692,21 @@ def bytes_find(I, vb: VBytes, pat: VBytes) -> VInt:
     n = vb.length()
     r = z3.Int(fresh("find"))
     k = z3.Int(fresh("k"))
+    nn = _iv(n)
+    I.path.assume(z3.And(r >= -1, r <= nn - m))
+    if len(vb.segs) == 1 and isinstance(vb.segs[0], View):
+        # single view: quantify over absolute positions of the underlying array (easier to instantiate)
+        sv = vb.segs[0]
+        off = _iv(sv.off)
+
+        def amatch(j):
+            return z3.And([z3.Select(sv.base, j + q) == pb[q] for q in range(m)])
+        I.path.assume(z3.Implies(r >= 0, amatch(off + r)))
+        I.path.assume(z3.ForAll([k], z3.Implies(z3.And(k >= off, k + m <= off + nn, z3.Or(r < 0, k < off + r)), z3.Not(amatch(k)))))
+        return VInt(i=r, lo=-1, hi=MAXLEN)
 
     def match(j):
         return z3.And([vb.at(iadd(j, q) if isinstance(j, int) else z3.simplify(j + q)) == pb[q] for q in range(m)])
-    nn = _iv(n)
-    I.path.assume(z3.And(r >= -1, r <= nn - m))
     I.path.assume(z3.Implies(r >= 0, match(r)))
     I.path.assume(z3.ForAll([k], z3.Implies(z3.And(k >= 0, k + m <= nn, z3.Or(r < 0, k < r)), z3.Not(match(k)))))
     return VInt(i=r, lo=-1, hi=MAXLEN)
